@@ -174,6 +174,8 @@ pub struct SessP {
     pub wmd5: bool,
     pub rx: String,
     pub sgrp: bool,
+    /// first TOI handed out by the sender (TOIs are up to 112 bits wide)
+    pub toi0: u128,
     pub objs: Vec<ObjP>,
     // derived
     pub fdts: Vec<FdtInst>,
@@ -202,6 +204,7 @@ impl Default for SessP {
             wmd5: true,
             rx: "recv".into(),
             sgrp: false,
+            toi0: 1,
             objs: vec![],
             fdts: vec![],
             sched: vec![],
@@ -216,7 +219,7 @@ fn b(x: bool) -> u8 {
 impl SessP {
     pub fn fmt(&self, with_derived: bool) -> String {
         let mut s = format!(
-            "prop={} oti={} w={} mode={} ro={} fcenc={} mux={} dt={} idle={} n={} tail={} fcar={} maxc={} wr={} wmd5={} rx={} sgrp={}",
+            "prop={} oti={} w={} mode={} ro={} fcenc={} mux={} dt={} idle={} n={} tail={} fcar={} maxc={} wr={} wmd5={} rx={} sgrp={} toi0={}",
             self.prop,
             self.oti.fmt(),
             self.w,
@@ -233,7 +236,8 @@ impl SessP {
             self.wr,
             b(self.wmd5),
             self.rx,
-            b(self.sgrp)
+            b(self.sgrp),
+            self.toi0
         );
         for o in &self.objs {
             s += &format!(
@@ -304,6 +308,9 @@ impl SessP {
         sp.wmd5 = pb(g.get("wmd5")?)?;
         sp.rx = g.get("rx")?.to_string();
         sp.sgrp = pb(g.get("sgrp")?)?;
+        if let Some(t) = g.get("toi0") {
+            sp.toi0 = t.parse().ok()?;
+        }
         for sec in secs {
             let sec = sec.trim();
             if let Some(r) = sec.strip_prefix("o ") {
